@@ -119,6 +119,18 @@ def run(rep, tier, seed, rng):
                 dict(request=req, kind=kind, implementation=a, model=b,
                      decode="hex-encoded UTF-8; '.'=empty; policies E=error I=ignore D=defer M=empty"),
                 found_input=crashed or clean_shape(req))
+    # end to end: every string laze expands on its way to the ninja file (rule commands, export: entries of rules,
+    # sources, outs, task commands), against the model that uses the proved expander
+    from . import gen_common
+    ecases = gen_common.load_cases(rng, tier, 120, 2000, focus="env")
+    lz, dr, results = gen_common.run_cases(ecases)
+    ne2e = 0
+    for c, r in zip(ecases, results):
+        if r["tags"] & {"ninja", "crash", "rc", "predicted-panic"} and not (r["tags"] & {"configured", "modules", "nobuilds"}):
+            ne2e += 1
+            rep.violation("expanded text in the generated file differs from the model's (rule commands, exports, sources, task commands): " + "; ".join(r["dis"])[:300],
+                          gen_common.replay_data(r), found_input=True)
+    rep.cov.update(e2e_projects=len(ecases), e2e_disagreements=ne2e)
     rep.cov.update(evaluations=len(cases), distinct_nontrivial=len(distinct),
                    rule="strings built from a piece grammar biased to ${ } \\ $( ) and multi-byte characters, variable maps with chains and cycles, "
                         "policies E/I/D/M; non-trivial = request containing >= 2 of {reference, escape, expression, 2-byte char, 3-byte char}; distinct request lines",
